@@ -400,7 +400,9 @@ int driverMain(int argc, char** argv, std::function<Engine*(const std::string&)>
                         std::string err; readFile(w.err, err);
                         if (w.open >= 0) {
                             std::string cls = crashClass(err, status);
-                            viols.push_back(Viol{ (uint64_t)w.open, cls, sanitize(err.substr(0, 1500)), "", true });
+                            // an engine that left the process to report wrote its own detail line in front of the class: that, not the head of stderr, is what known findings are matched against
+                            std::string det = sanitize(err.substr(0, 1500)); { size_t sp = err.rfind("SIMVIOLATION "), dp = sp == std::string::npos ? sp : err.rfind("\nDETAIL ", sp); if (dp != std::string::npos) { size_t e = err.find('\n', dp + 1); det = sanitize(err.substr(dp + 8, e == std::string::npos ? std::string::npos : e - dp - 8)); } }
+                            viols.push_back(Viol{ (uint64_t)w.open, cls, det, "", true });
                             evaluations++;
                             uint64_t nextStart = (uint64_t)w.open + (uint64_t)cfg.workers;
                             if (nextStart < cfg.runs && viols.size() < 64) spawn(idx[k], nextStart);
